@@ -688,6 +688,14 @@ func (P) Exec(c *harness.Case) *harness.Outcome {
 		}
 		ev := fsrc.pending[0]
 		fsrc.pending = fsrc.pending[1:]
+		if ev.Op != simfsnotify.Remove && ev.Op != simfsnotify.Rename {
+			// what fsnotify (v1.4.7, Event.ignoreLinux) does before it hands an event on: anything but a removal or a
+			// rename is dropped when the path does not exist at that moment
+			if _, err := os.Lstat(ev.Name); os.IsNotExist(err) {
+				o.Fault("file_event_dropped_by_the_watcher_library")
+				return true
+			}
+		}
 		wt := simfsnotify.Last()
 		for i := 0; i < dup; i++ {
 			if wt == nil || wt.Closed() {
@@ -925,16 +933,16 @@ func (P) Exec(c *harness.Case) *harness.Outcome {
 			}
 			if op.K == "fremove" && op.F {
 				// Another process holds the file open (a log shipper, an editor): unlinking it then only changes
-				// its link count, which inotify announces as an attribute change; the removal itself is
-				// announced when the last descriptor is closed. The file is gone all the same.
+				// its link count, which inotify announces as an attribute change - and which the watcher library
+				// drops, because the path is gone (see deliverEvent). The removal itself is announced when the
+				// last descriptor is closed: until then a source that relies on the watcher cannot know, and the
+				// rules stay; they are cleared when that event arrives.
 				_ = os.Remove(fsrc.path)
 				fsrc.pending = append(fsrc.pending, simfsnotify.Event{Name: fsrc.path, Op: simfsnotify.Chmod})
 				o.Fault("file_removed_while_held_open")
 				if !deliverEvent(step, 1) {
 					return o
 				}
-				fsrc.st.has = false
-				w.apply(cfg.FileM, nil, nil)
 				if !w.probe(step, env) {
 					return o
 				}
